@@ -59,6 +59,8 @@ struct prln_ctx_s {
 	int sed_mode_p;
 	int empty_mode_p;
 	int quietp;
+	/* whether the line at hand came with a \r\n */
+	int crlfp;
 };
 
 static int
@@ -89,6 +91,10 @@ proc_line(struct prln_ctx_s ctx, char *line, size_t llen)
 			break;
 		} else if (ctx.sed_mode_p) {
 			llen = !(ctx.empty_mode_p && !nmatch) ? llen : 0U;
+			if (ctx.crlfp) {
+				/* put the \r back that the reader took */
+				line[llen++] = '\r';
+			}
 			line[llen] = '\n';
 			__io_write(line, llen + 1, stdout);
 			break;
@@ -253,6 +259,7 @@ Error: cannot find zone specified in --zone: `%s'", argi->zone_arg);
 			for (char *line; prchunk_haslinep(pctx); lno++) {
 				size_t llen = prchunk_getline(pctx, &line);
 
+				prln.crlfp = prchunk_crlfp(pctx);
 				rc |= proc_line(prln, line, llen);
 			}
 		}
